@@ -1415,6 +1415,7 @@ func main() {
 	// every frame kind x scan script; budget-charging filters behind compressing ones
 	h.frameCases()
 	h.behindCompression()
+	h.jbig2StructCases()
 	phase("frame kinds + budget identity")
 	// headers whose claimed geometry straddles the stream budget, for every component layout
 	h.headerSweep()
